@@ -142,7 +142,8 @@ def schedules(quick):
         for j in range(k):
             kind = r.choices(["model", "invalid", "lib", "manifest-drop", "manifest-restore"], [6, 2, 1, 1, 1])[0]
             steps.append((r.choice(gaps), kind, 10 * i + j + 1, r.choice(["inplace", "rename"])))
-        if steps[-1][1] == "invalid":
+        last_model_save = [st[1] for st in steps if st[1] in ("model", "invalid")]
+        if last_model_save and last_model_save[-1] == "invalid":      # the final contents must be valid: what an invalid final state should produce is not stated
             steps.append((r.choice(gaps), "model", 10 * i + 9, "inplace"))
         out.append(("timed-%d" % i, "", steps))
     forced = [
